@@ -174,6 +174,15 @@ Theorem C09_daylength_season_mean_partial :
   @div R RNum 150 (ofZ (harvest_doy - sow_doy)) < 0).
 Proof. exact (conj dl_hours_range (conj daylengths_range_lemma (conj season_mean_range_lemma season_mean_doy_witness))). Qed.
 
+(* Stage days of the crop record (any numeric type): after the per-crop reset at sowing (every stage day 0 beyond the current stage)
+   the day of every stage the crop has NOT reached is still 0 after any sequence of days - a crop record never shows a stage day this
+   crop did not produce.  That the real readers perform this reset is checked on every traced sowing (state after the sowing day) and
+   on every crop record (file and state at harvest) *)
+Theorem C09_stage_days_partial :
+  forall (T : Type) (NT : Num T) (xs : list (stage_in (T:=T))) (s : stage_st (T:=T)),
+  dev_clean s -> dev_clean (stage_run xs s).
+Proof. exact (@stage_days_lemma). Qed.
+
 (* non-vacuity: the shipped winter-wheat rows 1 and 2 are rows of shares *)
 Example C09b_nonvacuous : row_ok [(5, 1%nat); (5, 1%nat); (0, 0%nat); (0, 0%nat)]%Z = true /\ row_ok [(2, 1%nat); (6, 1%nat); (2, 1%nat); (0, 0%nat)]%Z = true.
 Proof. exact (conj eq_refl eq_refl). Qed.
@@ -187,3 +196,4 @@ Print Assumptions C09_partition_conservation_partial.
 Print Assumptions C09_dry_matter_conservation_partial.
 Print Assumptions C09_assimilation_nonneg_partial.
 Print Assumptions C09_daylength_season_mean_partial.
+Print Assumptions C09_stage_days_partial.
